@@ -117,6 +117,15 @@ func evalB(b bSpec) verdict {
 			return fail("identity-arg", fmt.Sprintf("identity function call %d received %s, expected %s", i, describeIface(x), describeIface(want)))
 		}
 	}
+	// the binding itself is untouched (env.Get hands back what env.Define stored)
+	if back, gerr := e.Get("x"); gerr != nil || !sameIface(back, g.V, true) {
+		return fail("binding", fmt.Sprintf("env.Get(\"x\") yields %s (err=%v), bound %s", describeIface(back), gerr, describeIface(g.V)))
+	}
+	if r.Name == "rebind" {
+		if back, gerr := e.Get("y"); gerr != nil || !sameIface(back, g.V, true) {
+			return fail("binding", fmt.Sprintf("env.Get(\"y\") yields %s (err=%v), expected %s", describeIface(back), gerr, describeIface(g.V)))
+		}
+	}
 	var held interface{}
 	switch r.Holder {
 	case "":
